@@ -36,7 +36,7 @@ def s_groups(draw, d, N, allow_float=True, sites=None):
     for _ in range(ng):
         step = draw(st.sampled_from([0, N] + list(range(N + 1))))
         post = draw(st.booleans())
-        site = draw(st.integers(0, sites - 1)) if sites else 0
+        site = draw(st.integers(0, (len(sites) if isinstance(sites, list) else sites) - 1)) if sites else 0
         if (step, post, site) in seen:
             continue
         seen.add((step, post, site))
@@ -46,7 +46,7 @@ def s_groups(draw, d, N, allow_float=True, sites=None):
         if kind == "mixed":
             # int-step and float-time controls on the same step and side have no documented relative order: only
             # mutually commuting maps are generated (diagonal phase kicks, dephasing, identity); each acts exactly once
-            dd = d if not sites else 2
+            dd = d if not sites else (sites[site] if isinstance(sites, list) else 2)
             nops = draw(st.integers(2, 3))
             g["ops"] = [draw(st.one_of(
                 st.builds(lambda ph: {"kind": "unitary", "u": {"kind": "phases", "ph": ph}},
@@ -57,7 +57,8 @@ def s_groups(draw, d, N, allow_float=True, sites=None):
             if len(set(g["op_kinds"])) == 1:
                 g["op_kinds"][0] = "float" if g["op_kinds"][0] == "int" else "int"
         else:
-            g["ops"] = [draw(ancgen.control_op_spec(d if not sites else 2)) for _ in range(draw(st.integers(1, 3)))]
+            g["ops"] = [draw(ancgen.control_op_spec(d if not sites else (sites[site] if isinstance(sites, list) else 2)))
+                        for _ in range(draw(st.integers(1, 3)))]
         groups.append(g)
     return groups
 
@@ -128,6 +129,37 @@ def run_single(case):
     if case["sys"]["kind"] == "td" and case["sys"].get("integ"):
         tol = max(tol, 1e-7 * max(1.0, float(np.abs(want).max())))
     out.check_close("single", np.array(dyn.states), want, tol, "compute_dynamics with controls")
+    # the same schedule through the other entry points that take controls
+    ra = oqupy.compute_dynamics(system, rho0, process_tensor=envs[0]["pt"], record_all=False, **kw) if envs else \
+        oqupy.compute_dynamics(system, rho0, dt=dt, num_steps=N, record_all=False, **kw)
+    out.check_close("single/record_all=False", np.array(ra.states)[-1], want[-1], tol, "final state with record_all=False")
+    if case["sys"]["kind"] == "const" or not case["sys"].get("integ"):
+        import oqupy.system as _S
+        spec_s = case["sys"]
+        if spec_s["kind"] == "const":
+            Hc = gens.herm(spec_s["H0"])
+            sysf = oqupy.TimeDependentSystemWithField(
+                lambda t, a: Hc, gammas=[(lambda t, g=l["g0"]: g) for l in spec_s["lind"]],
+                lindblad_operators=[(lambda t, A_=gens.to_c(l["A0"]): A_) for l in spec_s["lind"]])
+            mfs = oqupy.MeanFieldSystem([sysf], lambda t, st_, a: 0.3 - 0.1 * a)
+            pts = [envs[0]["pt"]] if envs else None
+            kwf = dict(initial_state_list=[rho0], start_time=t0, control_list=[ctl], progress_type="silent")
+            if envs:
+                dw = oqupy.compute_dynamics_with_field(mfs, 0.2 + 0.0j, [pts[0]], **kwf)
+            else:
+                dw = oqupy.compute_dynamics_with_field(mfs, 0.2 + 0.0j, None, dt=dt, num_steps=N, **kwf)
+            out.check_close("with-field", np.array(dw.system_dynamics[0].states), want, tol,
+                            "compute_dynamics_with_field with controls (field-independent system)")
+            if envs and case["d"] == 2:
+                from oqupy.gradient import compute_gradient_and_dynamics
+                psys = oqupy.ParameterizedSystem(
+                    lambda u: Hc, gammas=[(lambda u, g=l["g0"]: g) for l in spec_s["lind"]],
+                    lindblad_operators=[(lambda u, A_=gens.to_c(l["A0"]): A_) for l in spec_s["lind"]])
+                _, dg = compute_gradient_and_dynamics(system=psys, initial_state=rho0, target_derivative=rho0.T.copy(),
+                                                      process_tensors=[envs[0]["pt"]], parameters=np.zeros((2 * N, 1)),
+                                                      start_time=t0, control=ctl, progress_type="silent")
+                out.check_close("gradient-dynamics", np.array(dg.states), want, tol,
+                                "compute_gradient_and_dynamics: reported dynamics with controls")
     return out
 
 
@@ -135,9 +167,10 @@ def run_single(case):
 def s_chain(draw, tier):
     N = draw(st.integers(1, 4))
     family = draw(st.sampled_from(["uncoupled", "two-site", "two-site"]))
-    ch = draw(chaingen.chain_spec(family, n_min=2, n_max=3, dims=(2,), N=N))
+    ch = draw(chaingen.chain_spec(family, n_min=2, n_max=3, dims=(2, 3), N=N))
     return {"N": N, "dt": draw(st.sampled_from([0.1, 0.3])), "order": draw(st.sampled_from([1, 2])),
-            "chain": ch, "groups": draw(s_groups(2, N, allow_float=False, sites=len(ch["dims"])))}
+            "chain": ch, "groups": draw(s_groups(2, N, allow_float=False, sites=list(ch["dims"]))),
+            "split": draw(st.one_of(st.none(), st.integers(0, N)))}
 
 
 def run_chain(case):
@@ -157,16 +190,19 @@ def run_chain(case):
             key = (g["step"], g["post"])
             lst = ref.setdefault(key, [None] * n)
             lst[g["site"]] = S if lst[g["site"]] is None else S @ lst[g["site"]]
-    stacked = _noncommuting_stack(case["groups"], 2)
+    stacked = any(_noncommuting_stack([g], ds[g["site"]]) for g in case["groups"])
     edge = any(g["step"] in (0, N) for g in case["groups"])
     out.nontrivial = stacked or edge
-    out.label("family=" + spec["family"], f"sites={n}", "stacked-noncommuting" if stacked else "no-stack",
+    out.label("family=" + spec["family"], f"sites={n}", "dims=" + "x".join(str(x) for x in ds), "stacked-noncommuting" if stacked else "no-stack",
               "edge-step" if edge else "inner-step", "pt-on-site" if any(e is not None for e in envs) else "no-pt")
     record = list(range(n)) + [tuple(range(n))]
     teb = oqupy.PtTebd(oqupy.AugmentedMPS(chaingen.initial_states(spec)), chain,
                        [None if e is None else e["pt"] for e in envs],
                        oqupy.PtTebdParameters(dt=dt, epsrel=1e-12, order=case["order"]),
                        chain_control=cc, dynamics_sites=record)
+    if case.get("split") is not None:
+        out.label("split-compute")
+        teb.compute(case["split"], progress_type="silent")
     res = teb.compute(N, progress_type="silent")
     want = chaingen.dense_reference(spec, envs, N, dt, record, ref)
     for s in record:
